@@ -149,7 +149,7 @@ def engine_ring(tier, seed):
                     pa = [acts[a] for a in paths[cr['path']]]
                     step = min(cr['step'], len(pa))
                     aname = pa[step]['name'] if step < len(pa) else 'teardown'
-                    tag = {'Poll': 'C02', 'Drop': 'C06', 'RingPoll': 'C05', 'teardown': 'C12'}.get(aname, 'C02')
+                    tag = {'Poll': 'C02', 'Drop': 'C06', 'DropRes': 'C07', 'RingPoll': 'C05', 'DropRing': 'C12', 'teardown': 'C12'}.get(aname, 'C02')
                     first.setdefault(cr['path'], {'path': cr['path'], 'step': step, 'tag': tag,
                                                   'field': 'process crashed (rc %s) during %s' % (cr['rc'], aname),
                                                   'expected': None, 'observed': cr['stderr'][-300:],
